@@ -36,7 +36,7 @@ def run_file(path):
     if res.error:
         print("unit could not be executed:", res.error[:800]); return 2
     import re
-    norm = lambda s: re.sub(r"#\d+", "", re.sub(r":\d+", "", s))
+    norm = runner.norm_name
     hits = [o for o in res.obligations if norm(o["name"]) == norm(name)]
     if not hits:
         print("the obligation is no longer generated for the current source"); return 2
